@@ -8,6 +8,18 @@ use crate::kstub::*;
 use crate::fragment::Line;
 use crate::Point;
 
+// All fragments in these harnesses are Lines, but after they have travelled through
+// the Vecs of the merge loop CBMC no longer knows the enum discriminant and executes
+// every arm of Fragment::merge.  The two arms that cannot occur here are given
+// trivial bodies (they are never called on Lines; if one were, the harness's own
+// fixpoint assertion would be evaluated on whatever it returned).
+fn stub_merge_circle(_l: &Line, _c: &crate::fragment::Circle) -> Option<Fragment> {
+    None
+}
+fn stub_celltext_merge(_a: &crate::fragment::CellText, _b: &crate::fragment::CellText) -> Option<crate::fragment::CellText> {
+    None
+}
+
 fn hline(y: i32, a: i32, b: i32) -> FragmentSpan {
     FragmentSpan::new(
         Span(Vec::with_capacity(1)),
@@ -74,7 +86,7 @@ fn o9_6_span_fragments_fixpoint() {
 }
 
 //@ harness: o9_6_bridge_fixpoint props=C09 tier=quick obl=O9.6 timeout=1800 mem=16
-//@ desc: FragmentBuffer holding, in this order, the fixed horizontal lines [0,2] and [4,6] and a third line [lo,hi] (symbolic, 0 <= lo < hi <= 8 quarter units, same row) that may bridge them: merge_fragment_spans returns lines no two of which can still merge (a single greedy sweep would leave [0,2] next to the merged rest); the minimal situation in which the repeat-until-stable loop at this call site matters; bounded Vec
+//@ desc: FragmentBuffer holding, in this order, the fixed horizontal lines [0,2] and [4,6] and a third line [lo,hi] (symbolic, 0 <= lo < hi <= 8 quarter units, same row) that may bridge them: merge_fragment_spans returns lines no two of which can still merge (a single greedy sweep would leave [0,2] next to the merged rest); the minimal situation in which the repeat-until-stable loop at this call site matters; bounded Vec; the Line+Circle and CellText+CellText arms of Fragment::merge, which cannot occur with lines, are stubbed by None
 //@ encodes: FragmentBuffer::merge_fragment_spans, FragmentBuffer::abs_fragment_spans, FragmentSpan::merge, Fragment::merge, Line::merge, Merge::merge_recursive
 #[kani::proof]
 #[kani::stub(std::io::_print, crate::kstub::noop_print)]
